@@ -35,7 +35,7 @@ int main(int argc, char** argv)
 		CALL("min/max/clamp(int)"); use(glm::min(x, y)); use(glm::max(x, y)); use(glm::clamp(x, std::min(x, y), std::max(x, y)));
 		CALL("bitCount"); use(glm::bitCount(x)); use(glm::bitCount(u)); CALL("findLSB"); use(glm::findLSB(x)); use(glm::findLSB(u)); CALL("findMSB"); use(glm::findMSB(x)); use(glm::findMSB(u));
 		CALL("bitfieldReverse"); use(glm::bitfieldReverse(x)); use(glm::bitfieldReverse(u));
-		for (int off = 0; off < 32; off += (thorough ? 1 : 5)) for (int bits = 0; off + bits <= 32; bits += (thorough ? 1 : 3)) {
+		for (int off = 0; off < 32; off += (thorough || off >= 30 ? 1 : 5)) for (int bits = 0; off + bits <= 32; bits += (thorough || bits < 2 || off + bits >= 29 ? 1 : 3)) {   // the quick tier keeps every field that ends at bit 29..32 (a 31-bit mask computed in int overflowed)
 			CALL("bitfieldExtract(uint)"); use(glm::bitfieldExtract(u, off, bits)); CALL("bitfieldExtract(int)"); use(glm::bitfieldExtract(x, off, bits));
 			CALL("bitfieldInsert(uint)"); use(glm::bitfieldInsert(u, (unsigned)y, off, bits)); CALL("bitfieldInsert(int)"); use(glm::bitfieldInsert(x, y, off, bits)); calls += 4; }
 		for (int b = 0; b <= 40; b += (thorough ? 1 : 3)) { CALL("mask(int)"); use(glm::mask(b)); CALL("mask(uint)"); use(glm::mask((unsigned)b)); }
